@@ -390,3 +390,68 @@ def fill_program(rng, pid, cfg, cs, rounds=3, chunk_clusters=(1, 2, 3), use_dirs
         ops.append({"op": "stats"})
     ops.append({"op": "unmount"})
     return {"id": pid, "cfg": cfg, "ops": ops, "origin": "random:fill"}
+
+
+def populate_ops(rng, cs, n_files=4, n_dirs=2):
+    """deterministic-ish population used as the first session of read-only / foreign-state programs"""
+    ops = []
+    dirs = [""]
+    for k in range(n_dirs):
+        d = rng.choice(dirs) + "dir%d" % k
+        ops.append({"op": "create_dir", "at": "", "path": d})
+        dirs.append(d + "/")
+    files = []
+    for k in range(n_files):
+        nm = rng.choice(dirs) + rng.choice(["file%d.txt" % k, "Long File Name Number %d.data" % k, "F%d" % k])
+        h = "p%d" % k
+        ops.append({"op": "create_file", "at": "", "path": nm, "as": h})
+        ops.append({"op": "write_all", "h": h, "pat": k + 1, "len": rng.choice([0, 1, cs - 1, cs, cs + 1, 2 * cs + 7])})
+        ops.append({"op": "close", "h": h})
+        files.append(nm)
+    return ops, files, [d.rstrip("/") for d in dirs if d]
+
+
+def ro_program(rng, pid, cfg, cs, n_ops, end_setup="unmount", poke=None, end="unmount"):
+    """populate, end the session, then a session made only of non-mutating calls (C13)"""
+    ops, files, dirs = populate_ops(rng, cs)
+    e = {"op": end_setup}
+    if poke:
+        e["poke"] = poke
+    ops.append(e)
+    hs = {}
+    n = 0
+    for _ in range(n_ops):
+        r = rng.random()
+        if r < 0.2:
+            ops.append({"op": "list", "at": "", "path": rng.choice([""] + dirs)})
+        elif r < 0.4 and files:
+            n += 1
+            h = "r%d" % n
+            f = rng.choice(files)
+            if f in hs.values():
+                continue
+            ops.append({"op": "open_file", "at": "", "path": f if rng.random() < 0.7 else f.upper(), "as": h})
+            hs[h] = f
+        elif r < 0.6 and hs:
+            h = rng.choice(list(hs))
+            ops.append({"op": rng.choice(["read", "read_all"]), "h": h, "len": rng.choice([0, 1, cs, 3 * cs])})
+        elif r < 0.7 and hs:
+            h = rng.choice(list(hs))
+            ops.append({"op": "seek", "h": h, "from": rng.choice(["start", "end", "cur"]), "off": rng.choice([0, 1, cs, -1])})
+        elif r < 0.75 and hs:
+            h = rng.choice(list(hs))
+            ops.append({"op": "extents", "h": h})
+        elif r < 0.8 and hs:
+            h = rng.choice(list(hs))
+            ops.append({"op": "close", "h": h})
+            del hs[h]
+        elif r < 0.86:
+            ops.append({"op": "stats"})
+        elif r < 0.92:
+            ops.append({"op": "status"})
+        elif r < 0.96:
+            ops.append({"op": "info"})
+        else:
+            ops.append({"op": "open_dir", "at": "", "path": rng.choice(dirs) if dirs else "x"})
+    ops.append({"op": end})
+    return {"id": pid, "cfg": cfg, "ops": ops, "origin": "random:ro"}
